@@ -1,13 +1,19 @@
 import Juniper.Generated.Comb
+import Juniper.Model.HelpersMore
 /-!
 # Executable model of the `xslices` counterparts of the combinators (C07 cross-version agreement)
 
 `Chunk` and `Runs` follow the Go loops as written, with the count / bounds / initial values /
-guards regenerated from the source. `Compact(Func)`, `Filter` delegate to `slices.*` in the Go
-code and are modelled by the documented behaviour of those functions. Core Lean only.
+guards regenerated from the source (`Juniper.Gen.Comb`). `Compact`, `CompactFunc`, `Filter`, `Equal`
+(one-line wrappers over package `slices`), `Join`, `Map`, `Reduce`, `Repeat` (own loops) are the models
+of C19 (`Model/HelpersMore.lean`: whole bodies / loop bodies regenerated into `Juniper.Gen.Helpers`,
+the `slices.*` callees by their documented contract, `Model/HelpersStdlib.lean`), applied to a slice
+with `cap = len`. `driver comb` executes every function of this file and `harness/cmd/c07` compares it
+with the real `xslices` function. `zero` is the zero value of the element type. Core Lean only.
 -/
 namespace Juniper.Model.XSlices
 open Juniper.Gen.Comb
+open Juniper.Model.Stdlib (Sl)
 variable {α β : Type}
 
 /-- `s[lo:hi]`; `none` = slice bounds out of range (panic). -/
@@ -58,29 +64,29 @@ def runs (same : α → α → Bool) (s : List α) : Option (List (List α)) :=
       | none => none
     else some runs
 
-/-- `slices.CompactFunc` (documented behaviour: keeps the first of each run of elements for which
-`eq(current, previous)` holds). -/
-def compactFunc (eq : α → α → Bool) : List α → List α
-  | [] => []
-  | [a] => [a]
-  | a :: b :: l => if eq b a then (match compactFunc eq (b :: l) with | [] => [a] | _ :: t => a :: t)
-                   else a :: compactFunc eq (b :: l)
+/-- `xslices.CompactFunc(s, eq)`: the items of the returned slice -/
+def compactFunc (zero : α) (eq : α → α → Bool) (l : List α) : List α :=
+  (Helpers.compactFunc zero (Sl.ofList l) eq).items
 
-def compact [DecidableEq α] (l : List α) : List α := compactFunc (fun a b => decide (a = b)) l
+/-- `xslices.Compact(s)` -/
+def compact [DecidableEq α] (zero : α) (l : List α) : List α := (Helpers.compact zero (Sl.ofList l)).items
 
-/-- `slices.DeleteFunc(slices.Clone(s), !keep)`. -/
-def filter (keep : α → Bool) (l : List α) : List α := l.filter keep
+/-- `xslices.Filter(s, keep)` -/
+def filter (zero : α) (keep : α → Bool) (l : List α) : List α := (Helpers.filter zero (Sl.ofList l) keep).items
 
-def join (ls : List (List α)) : List α := ls.flatten
+/-- `xslices.Join(in...)`; `none` = panic -/
+def join (zero : α) (ls : List (List α)) : Option (List α) := (Helpers.join zero ls).map Prod.fst
 
-def map (f : α → β) (l : List α) : List β := l.map f
+/-- `xslices.Map(s, f)`; `none` = panic -/
+def map (zero : β) (f : α → β) (l : List α) : Option (List β) := Helpers.map zero f l
 
-def reduce (f : β → α → β) (init : β) (l : List α) : β := l.foldl f init
+/-- `xslices.Reduce(s, initial, f)` -/
+def reduce (zero : β) (f : β → α → β) (init : β) (l : List α) : β := Helpers.reduce zero l init f
 
-/-- `xslices.Equal(a, b)` = `slices.Equal` (documented behaviour: same length and equal elements). -/
-def equal [DecidableEq α] (a b : List α) : Bool := decide (a = b)
+/-- `xslices.Equal(a, b)` -/
+def equal [DecidableEq α] (a b : List α) : Bool := Helpers.equal (Sl.ofList a) (Sl.ofList b)
 
 /-- `xslices.Repeat(s, n)`; `none` = `make` panics for negative `n`. -/
-def repeat_ (a : α) (n : Int) : Option (List α) := if n < 0 then none else some (List.replicate n.toNat a)
+def repeat_ (zero : α) (a : α) (n : Int) : Option (List α) := Helpers.repeatN zero a n
 
 end Juniper.Model.XSlices
